@@ -324,3 +324,6 @@ UNITS += [dup_unit]
 _bat = replay.battery('C01/driver.cpp', ['battery'])
 for _u in UNITS:
     _u.replay = replay.first_of(_u.replay, _bat) if _u.replay else _bat
+
+# planted one-token breaks for the newer units (thorough tier: each must make an obligation fail)
+dup_unit.planted = [('dup', r'if\(g_rc==1\) return;', 'if(g_rc==1 || g_n==0) return;')]
